@@ -221,7 +221,10 @@ class MCLevyCopulaSimulation:
                 grid[pivot_position + state_increment]
                 for state_increment in states_increments
             )
-            all_values[k] = np.cumsum(np.array(list(xy)), axis=0)
+            all_values[k] = np.cumsum(
+                np.array(list(xy), dtype=float).reshape((-1, len(pivot_position.value))),
+                axis=0,
+            )
             all_states_increments[k] = states_increments
 
         return all_values, all_states_increments
@@ -243,9 +246,7 @@ class MCLevyCopulaSimulationFixedTimes(MCLevyCopulaSimulation, SimulationFixedTi
     def simulate_one_path(self) -> StochasticPath:
         # simulate the jump values
         simulated_jumps = self.simulate_jumps()
-        jumps = np.hstack(
-            (np.zeros(self._dimension)[:, np.newaxis], simulated_jumps[:, np.newaxis])
-        )
+        jumps = np.hstack((np.zeros(self._dimension)[:, np.newaxis], simulated_jumps))
 
         # simulate the diffusion part
         simulated_diffusion = self.simulate_diffusion_part()
@@ -266,10 +267,11 @@ class MCLevyCopulaSimulationFixedTimes(MCLevyCopulaSimulation, SimulationFixedTi
     @staticmethod
     def project(values, dim):
         zero = (0.0,) * dim
-        definitive_values = (
+        definitive_values = [
             sliceStates[-1] if sliceStates.size else zero for sliceStates in values
-        )
-        return np.array(*definitive_values)
+        ]
+        # running sum of the jumps at each date, one row per dimension
+        return np.cumsum(np.array(definitive_values), axis=0).T
 
     def simulate_jumps(self):
         mc = self.simulate_markov_chain()
@@ -339,7 +341,13 @@ class MCLevyCopulaSimulationWithJumpTimes(
 
     def simulate_jumps(self):
         mc = self.simulate_markov_chain()
-        jump_values = np.concatenate(mc.values, axis=-1).T
+        # the values of each slice start from 0: carry the running sum from one slice to the next
+        offset, slices = np.zeros(self._dimension), []
+        for slice_values in mc.values:
+            slices.append(slice_values + offset)
+            if len(slice_values):
+                offset = slices[-1][-1]
+        jump_values = np.concatenate(slices, axis=0).T
         jump_times = mc.times
         return jump_times, jump_values
 
